@@ -169,6 +169,7 @@ func genAPI(r *hx.Rand, nRecs int, mode int, nonWF bool) {
 		// what the API contract says each key is: SetConfig => internal, setFile / File=true => file
 		intentInternal := map[string]bool{}
 		c.tag(fmt.Sprintf("mode%d", mode))
+		twoWriters := !nonWF && r.Chance(1, 4)
 		badAt := -1
 		if nonWF {
 			badAt = r.Intn(nRecs)
@@ -290,7 +291,19 @@ func genAPI(r *hx.Rand, nRecs int, mode int, nonWF bool) {
 				}
 			}
 			sort.Strings(c.intent)
+			// one run in four: a second Writer gets some of the records too, before or after
+			if twoWriters && r.Chance(1, 3) {
+				c.write2(target)
+			}
 			c.write(target)
+			if twoWriters && r.Chance(1, 3) {
+				c.write2(target)
+			}
+			// a record the caller built for this Write only is overwritten right after it
+			if target != live {
+				scribble(target)
+				c.tag("scribble")
+			}
 		}
 	})
 }
